@@ -10,7 +10,10 @@
 A cache is `empty`, `partial` (the pointer is published, the object not yet completed), or `done`; the detailed-type cache
 of an empty container and of a hash with a non-string key is the reduced type object itself (`aliasRed`).
 Whether a fill function publishes the object BEFORE completing it is not written here: it is read from the table
-`Generated.cacheSites`, regenerated from the sources on every run (`Cfg.ofTable`).
+`Generated.cacheSites`, regenerated from the sources on every run (`Cfg.ofTable`).  That table lists EVERY lazily
+initialised field found (by shape: `if recv.F == nil { … recv.F = … }`) in types/arraytype.go, hashtype.go, typedname.go,
+structtype.go, objecttype.go — also StructType.hashedMembers, the typedName caches, objectType.ctor / initType — and the
+obligation `publishOKExcept knownPublishFirst` holds every site outside the recorded ones to "assign complete values only".
 What a reader of a `part` cache gets: the half-built type (`Array[Any,n,n]`, `Hash[Any,Any,n,n]`, a Tuple / Struct with `Any`
 members).  (Before fix 8774e1c the Tuple of an Array's detailed type was published with NIL element types and a reader
 crashed printing it; `Obs.fault` is kept for that answer, which the model can no longer produce.)
@@ -29,6 +32,21 @@ structure CacheSite where
 
 /-- the discipline: the write that publishes a cache pointer is the last write to the object -/
 def publishAfterInit (tbl : List CacheSite) : Bool := tbl.all (·.publishLast)
+
+/-- the fill functions recorded as publishing before the object is complete (known finding
+    C13-type-cache-published-before-init: the early publication is their recursion guard) -/
+def knownPublishFirst : List String :=
+  ["Array.privateReducedType", "Array.privateDetailedType", "Hash.privateReducedType", "Hash.privateDetailedType",
+   "objectType.createInitType"]
+
+/-- the discipline for everything else: every lazily initialised field the extractor FINDS in the anchored type and value
+    files is only ever assigned a complete value -/
+def publishOKExcept (known : List String) (tbl : List CacheSite) : Bool :=
+  (tbl.filter fun s => !known.contains s.fn).all (·.publishLast)
+
+/-- the executable converse: a site outside the recorded ones that publishes first (or was not understood) -/
+def publishOffender (known : List String) (tbl : List CacheSite) : Option CacheSite :=
+  (tbl.filter fun s => !known.contains s.fn).find? fun s => !s.publishLast
 
 /-- every recognised publication of this function comes last (and the function was recognised at all) -/
 def fnPublishesLast (tbl : List CacheSite) (fn : String) : Bool :=
